@@ -356,6 +356,8 @@ class Interp:
         self.np = npstubs.make_numpy(self)
         self.stubmods = pystubs.make_modules(self)
         self.builtins = pystubs.make_builtins(self)
+        from . import libstubs
+        self.stubmods.update(libstubs.make_lib_modules(self))
 
     def reset_state(self):
         """module-level mutable state of the interpreted program is reset before every path"""
@@ -410,6 +412,7 @@ class Interp:
     def find(self, key):
         """'physt.binnings:FixedWidthBinning.copy' -> RepoFunction (loads the module)."""
         modname, qual = key.split(":")
+        self.load_module("physt")      # as in CPython, importing any physt module runs the package __init__ (registers the compat adapters)
         self.load_module(modname)
         if key in self.functions:
             return self.functions[key]
@@ -417,6 +420,7 @@ class Interp:
 
     def find_class(self, key):
         modname, qual = key.split(":")
+        self.load_module("physt")
         self.load_module(modname)
         return self.classes[key]
 
